@@ -152,8 +152,8 @@ pub enum Domain {
     HugeScalar,
 }
 
-pub const N_REGIMES: usize = 11;
-pub const REGIME_NAMES: [&str; N_REGIMES] = ["walk", "trend", "alternate", "spikes", "plateaus", "sawtooth", "nearflat", "gridties", "widemag", "tinyzero", "geometric"];
+pub const N_REGIMES: usize = 12;
+pub const REGIME_NAMES: [&str; N_REGIMES] = ["walk", "trend", "alternate", "spikes", "plateaus", "sawtooth", "nearflat", "gridties", "widemag", "tinyzero", "geometric", "ulpflat"];
 
 /// Expand (regime, base, aux, noise) into a value stream. Pure function.
 pub fn expand(domain: Domain, regime: usize, base: f64, aux: f64, noise: &[f64]) -> Vec<f64> {
@@ -188,8 +188,10 @@ pub fn expand(domain: Domain, regime: usize, base: f64, aux: f64, noise: &[f64])
                 }
             }
             4 => {
-                if u > 0.8 {
-                    x = base * (1.0 + 5.0 * (u - 0.8));
+                // plateaus: short runs (about 5) or, for the upper half of aux, long ones (about 50)
+                let thr = if aux < 0.5 { 0.8 } else { 0.98 };
+                if u > thr {
+                    x = base * (1.0 + 5.0 * (u - thr) / (1.0 - thr) * 0.2);
                 }
                 x
             }
@@ -199,6 +201,10 @@ pub fn expand(domain: Domain, regime: usize, base: f64, aux: f64, noise: &[f64])
             8 => {
                 let e = -6.0 + 18.0 * u;
                 10f64.powf(e)
+            }
+            11 => {
+                // a window that is almost flat at ulp resolution: base + k ulps, k in 0..8
+                f64::from_bits((base * (1.0 + aux)).to_bits() + (u * 8.0) as u64)
             }
             10 => {
                 // smooth multi-decade sell-off (then rally): every step moves 2 % .. 30 % in one direction,
@@ -339,6 +345,7 @@ pub fn stream(domain: Domain, min_len: usize, max_len: usize) -> BoxedStrategy<S
     (0..N_REGIMES, base_strategy(domain), 0.0f64..1.0, vec(0.0f64..1.0, min_len..=max_len))
         .prop_map(move |(regime, base, aux, noise)| {
             let regime = if domain != Domain::AnySign && (regime == 8 || regime == 9) { regime - 8 } else { regime };
+            let regime = if domain == Domain::PositiveGrid && regime == 11 { 6 } else { regime };
             // spikes of 1e6x would leave the tiny range: use the walk instead
             let regime = if matches!(domain, Domain::TinyPositive | Domain::TinyAnySign | Domain::TinyNormal | Domain::Huge | Domain::HugeScalar) && (regime == 3 || regime == 2) { 0 } else { regime };
             Stream { regime, vals: expand(domain, regime, base, aux, &noise) }
